@@ -22,15 +22,21 @@ class C07(object):
             "through set_base / copy(base=) round-trip; STRUCT - lookup, event_probability, validate, normalize, "
             "marginal, coalesce, condition_on, product, mixture, sampling of a log distribution exponentiate to the "
             "results on its linear copy; MEASURE - Shannon-type measures of a log distribution times log2(base) equal "
-            "the linear values (perplexity base-free). Non-trivial = a distribution with >= 2 positive outcomes and a zero, "
-            "or an array of >= 3 entries")
+            "the linear values (perplexity base-free); HISTORY - a log distribution (Distribution or ScalarDistribution) and "
+            "its linear twin go through the same history of 2..8 steps (d[o] = v on stored / new outcomes, del d[o], "
+            "normalize, make_dense, make_sparse, set_base, and the non-mutating copy / from_distribution / copypmf / "
+            "marginal / condition_on / is_approx_equal, whose results are checked and then disturbed in place); before "
+            "the first and after every step BOTH objects are observed completely (lookup, stored pmf, event "
+            "probability, validate, sampling with fixed random numbers, entropy) against the measure the history "
+            "defines, tracked in exact rationals. CHAIN and STRUCT also re-observe the source after the operations. "
+            "Non-trivial = a distribution with >= 2 positive outcomes and a zero, or an array of >= 3 entries")
     tolerances = {'exponentiated values': 'rtol 1e-9 / atol 1e-12', 'measures': 'atol 1e-9'}
     exhaustive = {}
 
     def gen(self, rng, tier):
-        n_cases = 300 if tier == 'quick' else 18000
+        n_cases = 400 if tier == 'quick' else 24000
         for _ in range(n_cases):
-            kind = rng.choice(['ops', 'ops', 'chain', 'struct', 'struct', 'measure'])
+            kind = rng.choice(['ops', 'ops', 'chain', 'struct', 'struct', 'measure', 'history', 'history'])
             if kind == 'ops':
                 k = rng.choice([0, 1, 2, 3, 5])
                 style = rng.choice(['pmf', 'any'])
@@ -38,7 +44,7 @@ class C07(object):
                 ys = [rng.choice([0.0, 0.5, 0.25, 1.0, 0.1]) for _ in range(k)]
                 yield {'kind': 'ops', 'base': rng.choice(LOGBASES), 'xs': xs, 'ys': ys}
             else:
-                c = gen.rand_dist_case(rng, nmin=1 if kind == 'chain' else 2, nmax=3, bases=LOGBASES, allow_names=False)
+                c = gen.rand_dist_case(rng, nmin=1 if kind in ('chain', 'history') else 2, nmax=3, bases=LOGBASES, allow_names=False)
                 if c.get('style') == 'near-degenerate':
                     # the null tolerance is representation dependent by design (|p| <= 1e-8 in linear, exact in
                     # log): keep probabilities away from it so that trimming agrees in both representations
@@ -49,9 +55,19 @@ class C07(object):
                 c['kind'] = kind
                 c['chain'] = [rng.choice(gen.BASES) for _ in range(rng.randint(1, 6))]
                 c['seed'] = rng.randrange(2 ** 31)
+                if kind == 'history':
+                    c['scalar'] = c['n'] == 1 and rng.random() < 0.5
+                    if c['scalar']:
+                        c['space'], c['spacekind'] = None, 'alphabet'
+                    c['steps'] = hist_steps(rng, c)
                 yield c
 
     def shrink(self, case):
+        if case['kind'] == 'history' and len(case.get('steps', [])) > 1:
+            for i in range(len(case['steps'])):
+                c = dict(case)
+                c['steps'] = case['steps'][:i] + case['steps'][i + 1:]
+                yield c
         if case['kind'] == 'chain' and len(case['chain']) > 1:
             for i in range(len(case['chain'])):
                 c = dict(case)
@@ -140,7 +156,18 @@ class C07(object):
         cur = d
         for i, b in enumerate(case['chain']):
             if i % 2 == 0:
-                cur = cur.copy(base=b)
+                src, src_base = cur, cur.get_base()
+                cur = src.copy(base=b)
+                # the source of the copy is still the same measure, in its own base
+                if src.get_base() != src_base:
+                    r.oracle_fail = 'copy(base=%r) changed the base of its source from %r to %r' % (b, src_base, src.get_base())
+                    return
+                for o, p in self.lin_table(src, klass).items():
+                    w = want.get(o, 0.0)
+                    if not (abs(p - w) <= 1e-12 + 1e-9 * w):
+                        r.oracle_fail = ('after copy(base=%r) of a base-%r distribution (chain %s) the SOURCE has P(%s) = %r, originally %r'
+                                         % (b, src_base, case['chain'][:i + 1], list(o), p, w))
+                        return
             else:
                 cur.set_base(b)
             if cur.get_base() != b:
@@ -181,6 +208,12 @@ class C07(object):
         # the source is untouched by copy(base=)
         if gen.obs_py(d, klass)['base'] != case['base']:
             r.oracle_fail = 'copy(base=) changed the source'
+            return
+        for o, p in self.lin_table(d, klass).items():
+            w = want.get(o, 0.0)
+            if not (abs(p - w) <= 1e-12 + 1e-9 * w):
+                r.oracle_fail = 'after the chain %s the original distribution has P(%s) = %r, originally %r' % (case['chain'], list(o), p, w)
+                return
 
     def run_struct(self, case, drv, r):
         dit = import_dit()
@@ -267,6 +300,325 @@ class C07(object):
             if not (abs(a[k] - b[k]) <= 1e-12 + 1e-9 * abs(b[k])):
                 r.oracle_fail = 'after normalize: P(%s) = %r (base %s) vs %r (linear)' % (list(k), a[k], base, b[k])
                 return
+        # none of the operations above changes its operand: both are still the measure they were built from
+        want = {tuple(o): float(Fraction(p)) for o, p in zip(case['outs'], case['pmf'])}
+        for who, d in (('base-%s distribution' % base, dl), ('linear twin', d0)):
+            for k, p in self.lin_table(d, klass).items():
+                w = want.get(k, 0.0)
+                if not (abs(p - w) <= 1e-12 + 1e-9 * w or (d is d0 and p == 0.0 and w <= 1e-8)):
+                    r.oracle_fail = 'after the structural operations the %s has P(%s) = %r, built with %r' % (who, list(k), p, w)
+                    return
+        if [repr(x) for x in dl.rand(size=8, rand=us)] != [repr(x) for x in d0.rand(size=8, rand=us)] and not self.near_boundary(d0, us):
+            r.oracle_fail = 'sampling (second time) with the same random numbers differs between base %s and linear' % base
+            return
+
+    # ------------------------------------------------------------------ histories
+    # A log distribution and its linear twin are taken through the same sequence of steps. The measure the
+    # history defines is tracked here in exact rationals from the meaning of each step (assignment sets a weight,
+    # deletion removes it, normalize divides by the total, everything else leaves the measure alone); after every
+    # step both objects are observed completely and compared with it.
+
+    def hist_build(self, case, base):
+        dit = import_dit()
+        if not case.get('scalar'):
+            return gen.build(dict(case, base=base))
+        u = gen.UNIVERSE[case['klass']]
+        outs = [u[o[0]] for o in case['outs']]
+        pmf = [gen.log_of(Fraction(p), base) for p in case['pmf']]
+        return dit.ScalarDistribution(outs, pmf, sample_space=[u[a] for a in case['alphabets'][0]], base=base,
+                                      sparse=case['sparse'], trim=case['trim'])
+
+    @staticmethod
+    def hist_key(case):
+        klass = case['klass']
+        if case.get('scalar'):
+            inv = {sym: i for i, sym in enumerate(gen.UNIVERSE[klass])}
+
+            def key(o):
+                try:
+                    return (inv[o],)
+                except (KeyError, TypeError):
+                    raise gen.UnreadableOutcome('%r is not one of the symbols %s' % (o, gen.UNIVERSE[klass]))
+            return key
+        return lambda o: tuple(gen.from_py(o, klass))
+
+    @staticmethod
+    def hist_close(p, w, lin):
+        """Observed linear value p against the exact value w (the linear representation may read a weight within
+        its null tolerance 1e-8 as absent; a log representation has no such tolerance)."""
+        wf = float(w)
+        return abs(p - wf) <= 1e-12 + 1e-9 * abs(wf) or (lin and p == 0.0 and 0 <= wf <= 1e-8)
+
+    def hist_table(self, d, want, key, what):
+        """Lookups over the whole sample space and the stored pmf of `d` against the exact table `want`."""
+        base = d.get_base()
+        lin = base == 'linear'
+        seen = set()
+        for o in d.sample_space():
+            k = key(o)
+            seen.add(k)
+            p = gen.lin_of(d[o], base)
+            if not self.hist_close(p, want.get(k, 0), lin):
+                return '%s: lookup gives P(%s) = %r, the definition gives %s = %r' % (what, list(k), p, want.get(k, 0), float(want.get(k, 0)))
+        for k, w in want.items():
+            if w > Fraction(1, 10 ** 8) and k not in seen:
+                return '%s: the outcome %s of weight %s is not in its sample space' % (what, list(k), w)
+        if len(d.outcomes) != len(d.pmf):
+            return '%s: %d stored outcomes but %d pmf entries' % (what, len(d.outcomes), len(d.pmf))
+        for o, v in zip(d.outcomes, d.pmf):
+            k = key(o)
+            p = gen.lin_of(float(v), base)
+            if not self.hist_close(p, want.get(k, 0), lin):
+                return '%s: the stored pmf entry of %s is %r = probability %r, the definition gives %s = %r' % (
+                    what, list(k), float(v), p, want.get(k, 0), float(want.get(k, 0)))
+        return None
+
+    def hist_observe(self, d, want, key, us, mask, what):
+        """Every observer the statement names, on one object, against the exact measure `want`."""
+        from dit.shannon import entropy
+        err = self.hist_table(d, want, key, what)
+        if err:
+            return err
+        base = d.get_base()
+        lin = base == 'linear'
+        space = list(d.sample_space())
+        ev = [o for j, o in enumerate(space) if (mask >> (j % 31)) & 1]
+        if ev:
+            e = gen.lin_of(d.event_probability(ev), base)
+            w = sum(want.get(key(o), 0) for o in ev)
+            if not self.hist_close(e, w, lin):
+                return '%s: event_probability(%s) = %r, the definition gives %s = %r' % (what, [list(key(o)) for o in ev], e, w, float(w))
+        total = sum(want.values())
+        if total == 1:
+            try:
+                d.validate()
+            except Exception as e:  # noqa
+                return '%s: validate() raised %s: %s although the weights are probabilities summing to 1' % (what, type(e).__name__, str(e)[:80])
+        elif abs(total - 1) >= Fraction(1, 1000):
+            try:
+                d.validate()
+                return '%s: validate() accepts a table of total mass %s' % (what, total)
+            except Exception as e:  # noqa
+                if type(e).__name__ not in ('InvalidNormalization', 'InvalidProbability'):
+                    return '%s: validate() raised %s: %s' % (what, type(e).__name__, str(e)[:80])
+        if total != 1:
+            return None
+        # sampling: with the random number u the sample is the stored outcome whose cumulative interval contains u
+        stored = [key(o) for o in d.outcomes]
+        cum, acc = [], Fraction(0)
+        for k in stored:
+            acc += want.get(k, 0)
+            cum.append(acc)
+        got = [key(x) for x in d.rand(size=len(us), rand=np.array(us))]
+        one = key(d.rand(rand=float(us[0])))
+        for i, u in enumerate(us):
+            fu = Fraction(float(u))
+            if any(abs(fu - c) < Fraction(1, 10 ** 9) for c in cum) or fu >= cum[-1]:
+                continue
+            exp = stored[min(j for j, c in enumerate(cum) if fu < c)]
+            if got[i] != exp:
+                return '%s: rand(size=%d, rand=...) maps the random number %r to %s, its probabilities %s over the stored outcomes map it to %s' % (
+                    what, len(us), float(u), list(got[i]), [str(want.get(k, 0)) for k in stored], list(exp))
+            if i == 0 and one != exp:
+                return '%s: rand(rand=%r) gives %s, its probabilities %s over the stored outcomes give %s' % (
+                    what, float(u), list(one), [str(want.get(k, 0)) for k in stored], list(exp))
+        # entropy in the object's own unit
+        H = -sum(float(w) * math.log2(float(w)) for w in want.values() if w > 0)
+        a = float(entropy(d))
+        kk = 1.0 if lin else math.log2(gen.base_num(base))
+        if not (abs(a * kk - H) <= 1e-9):
+            return '%s: entropy = %r (x log2(base) = %r), the definition gives %r bits' % (what, a, a * kk, H)
+        return None
+
+    @staticmethod
+    def hist_disturb(c):
+        """Change a derived object in place: were it sharing storage with its source, the next observation of the
+        source would show it."""
+        if len(c.outcomes):
+            c[c.outcomes[0]] = gen.log_of(Fraction(3, 4), c.get_base())
+            c.normalize()
+
+    def run_history(self, case, drv, r):
+        dit = import_dit()
+        scalar = bool(case.get('scalar'))
+        n = case['n']
+        key = self.hist_key(case)
+        dl, d0 = self.hist_build(case, case['base']), self.hist_build(case, 'linear')
+        twins = lambda: (('base-%s %s' % (dl.get_base(), 'ScalarDistribution' if scalar else 'Distribution'), dl), ('linear twin', d0))
+        want = {key(o): Fraction(0) for o in dl.sample_space()}
+        for o, p in zip(case['outs'], case['pmf']):
+            want[tuple(o)] = want.get(tuple(o), 0) + Fraction(p)
+        rs = np.random.RandomState(case['seed'])
+        us = np.concatenate([rs.rand(10), (np.arange(8) + 0.5) / 8])
+        r.features += ['hist.scalar=%s' % scalar, 'hist.steps=%d' % len(case['steps'])]
+        done = []
+        mutated = False
+
+        def observe_all(when):
+            for who, d in twins():
+                err = self.hist_observe(d, want, key, us, case['seed'] + 7 * len(done), 'the %s %s' % (who, when))
+                if err:
+                    return err
+            return None
+
+        err = observe_all('as built')
+        if err:
+            r.oracle_fail = err
+            return
+        for step in case['steps']:
+            name = step[0]
+            total = sum(want.values())
+            when = 'after the history %s' % (done + [step])
+            skip = False
+            if name in ('setitem', 'delitem'):
+                pool = list(dl.sample_space())
+                if step[1] == 'stored' and len(dl.outcomes):
+                    pool = list(dl.outcomes)
+                elif step[1] == 'new':
+                    pool = [x for x in pool if x not in dl.outcomes] or pool
+                o = pool[step[2] % len(pool)]
+                k = key(o)
+                if name == 'setitem':
+                    v = step[3]
+                    if v == 'fill':
+                        v = want[k] + 1 - total
+                        if v < 0:
+                            v = Fraction(1, 2)
+                    v = Fraction(v)
+                else:
+                    v = Fraction(0)
+                if total - want[k] + v == 0:
+                    skip = True          # an all-zero table is not a measure any observer is defined on
+                else:
+                    r.features.append('hist.%s:%s' % (name, 'stored' if o in dl.outcomes else 'new'))
+                    if name == 'setitem':
+                        dl[o] = gen.log_of(v, dl.get_base())
+                        d0[o] = float(v)
+                    else:
+                        del dl[o]
+                        del d0[o]
+                    mutated = mutated or v != want[k]
+                    want[k] = v
+            elif name == 'normalize':
+                zl, z0 = gen.lin_of(dl.normalize(), dl.get_base()), float(d0.normalize())
+                for who, z in (('base-%s' % dl.get_base(), zl), ('linear', z0)):
+                    if not (abs(z - float(total)) <= 1e-9 * float(total)):
+                        r.oracle_fail = '%s: normalize() of the %s object returned the constant %r, the total mass was %s = %r' % (when, who, z, total, float(total))
+                        return
+                want = {k: w / total for k, w in want.items()}
+                mutated = mutated or total != 1
+            elif name == 'make_dense':
+                dl.make_dense()
+                d0.make_dense()
+            elif name == 'make_sparse':
+                dl.make_sparse()
+                d0.make_sparse()
+            elif name == 'set_base':
+                dl.set_base(step[1])
+                if dl.get_base() != step[1]:
+                    r.oracle_fail = '%s: get_base() is %r' % (when, dl.get_base())
+                    return
+            elif name in ('copy', 'from_distribution'):
+                b = step[1]
+                for who, d in twins():
+                    src_base = d.get_base()
+                    if name == 'copy':
+                        c = d.copy() if b is None else d.copy(base=b)
+                    else:
+                        c = (dit.ScalarDistribution if scalar else dit.Distribution).from_distribution(d, base=b)
+                    if c.get_base() != (src_base if b is None else b):
+                        r.oracle_fail = '%s: %s(base=%r) of the %s has base %r' % (when, name, b, who, c.get_base())
+                        return
+                    err = self.hist_table(c, want, key, '%s: the result of %s(base=%r) on the %s' % (when, name, b, who))
+                    if err:
+                        r.oracle_fail = err
+                        return
+                    self.hist_disturb(c)
+            elif name == 'copypmf':
+                b, mode = step[1], step[2]
+                for who, d in twins():
+                    lin = d.get_base() == 'linear'
+                    if lin and any(0 < w <= Fraction(1, 10 ** 8) for w in want.values()):
+                        continue      # which entries are "null" is representation dependent below 1e-8
+                    arr = dit.copypmf(d, base=b, mode=mode)
+                    outs_m = {'asis': list(d.outcomes), 'dense': list(d.sample_space()),
+                              'sparse': [o for o in d.outcomes if want.get(key(o), 0) > 0]}[mode]
+                    if len(arr) != len(outs_m):
+                        r.oracle_fail = '%s: copypmf(base=%r, mode=%s) of the %s has %d entries for %d outcomes' % (when, b, mode, who, len(arr), len(outs_m))
+                        return
+                    tb = d.get_base() if b is None else b
+                    for o, v in zip(outs_m, arr):
+                        if not self.hist_close(gen.lin_of(float(v), tb), want.get(key(o), 0), False):
+                            r.oracle_fail = '%s: copypmf(base=%r, mode=%s) of the %s: P(%s) = %r, the definition gives %s' % (
+                                when, b, mode, who, list(key(o)), gen.lin_of(float(v), tb), want.get(key(o), 0))
+                            return
+                    arr.fill(0.125)
+            elif name == 'marginal' and not scalar:
+                idx = sorted(set(i % n for i in step[1]))
+                mw = {}
+                for k, w in want.items():
+                    kk = tuple(k[i] for i in idx)
+                    mw[kk] = mw.get(kk, 0) + w
+                for who, d in twins():
+                    m = d.marginal(idx)
+                    if m.get_base() != d.get_base():
+                        r.oracle_fail = '%s: marginal(%s) of the %s has base %r' % (when, idx, who, m.get_base())
+                        return
+                    err = self.hist_table(m, mw, key, '%s: marginal(%s) of the %s' % (when, idx, who))
+                    if err:
+                        r.oracle_fail = err
+                        return
+                    self.hist_disturb(m)
+            elif name == 'condition_on' and not scalar and n >= 2 and total == 1:
+                j = step[1] % n
+                rest = [i for i in range(n) if i != j]
+                mw = {}
+                for k, w in want.items():
+                    mw[(k[j],)] = mw.get((k[j],), 0) + w
+                for who, d in twins():
+                    m, conds = d.condition_on([j])
+                    err = self.hist_table(m, mw, key, '%s: the marginal returned by condition_on([%d]) of the %s' % (when, j, who))
+                    if err:
+                        r.oracle_fail = err
+                        return
+                    if len(conds) != len(m.outcomes):
+                        r.oracle_fail = '%s: condition_on([%d]) of the %s returned %d conditionals for %d conditioning outcomes' % (when, j, who, len(conds), len(m.outcomes))
+                        return
+                    for mo, cd in zip(m.outcomes, conds):
+                        km = key(mo)
+                        if mw.get(km, 0) <= Fraction(1, 10 ** 8):
+                            continue
+                        cw = {}
+                        for k, w in want.items():
+                            if k[j] == km[0]:
+                                kk = tuple(k[i] for i in rest)
+                                cw[kk] = cw.get(kk, 0) + w / mw[km]
+                        err = self.hist_table(cd, cw, key, '%s: the conditional given X%d=%s from condition_on of the %s' % (when, j, list(km), who))
+                        if err:
+                            r.oracle_fail = err
+                            return
+                        self.hist_disturb(cd)
+                    self.hist_disturb(m)
+            elif name == 'approx_equal' and not any(0 < w <= Fraction(1, 10 ** 6) for w in want.values()):
+                other = d0.copy(base=dl.get_base())
+                if not dl.is_approx_equal(other) or not other.is_approx_equal(dl):
+                    r.oracle_fail = '%s: the base-%s object is not is_approx_equal to the copy of its linear twin in the same base' % (when, dl.get_base())
+                    return
+                self.hist_disturb(other)
+            else:
+                skip = True
+            if skip:
+                r.features.append('hist.skipped=%s' % name)
+                continue
+            done.append(step)
+            r.features.append('hist.step=%s' % name)
+            err = observe_all(when)
+            if err:
+                r.oracle_fail = err
+                r.detail = {'steps_done': done, 'measure': {str(list(k)): str(w) for k, w in want.items()}}
+                return
+        r.nontrivial = mutated and len([w for w in want.values() if w > 0]) >= 2
+        r.detail = {'steps_done': done}
 
     @staticmethod
     def near_boundary(d0, us):
@@ -322,6 +674,39 @@ class C07(object):
         pa, pb = float(perplexity(sl)), float(perplexity(s0))
         if not (abs(pa - pb) <= 1e-9 * pb):
             r.oracle_fail = 'perplexity(scalar): %r (base %s) vs %r (linear)' % (pa, base, pb)
+
+
+HIST_VALUES = ['0', '1/8', '1/4', '1/2', '3/4', '1', '3/2', 'fill', 'fill']
+
+
+def hist_steps(rng, case):
+    """A history: in-place changes (weighted towards stored outcomes, so that the same array is modified),
+    representation changes, and non-mutating operations whose source is observed again afterwards."""
+    n = case['n']
+    pool = ['setitem'] * 4 + ['normalize'] * 3 + ['copy'] * 3 + ['set_base'] * 2 + ['from_distribution', 'copypmf', 'make_dense',
+                                                                                 'make_sparse', 'delitem', 'approx_equal']
+    if not case.get('scalar'):
+        pool += ['marginal'] + (['condition_on'] if n >= 2 else [])
+    steps = []
+    for _ in range(rng.randint(2, 8)):
+        name = rng.choice(pool)
+        if name == 'setitem':
+            steps.append([name, rng.choice(['stored', 'stored', 'any', 'new']), rng.randrange(64), rng.choice(HIST_VALUES)])
+        elif name == 'delitem':
+            steps.append([name, rng.choice(['stored', 'any', 'new']), rng.randrange(64)])
+        elif name == 'set_base':
+            steps.append([name, rng.choice(gen.BASES)])
+        elif name in ('copy', 'from_distribution'):
+            steps.append([name, rng.choice(gen.BASES + [None])])
+        elif name == 'copypmf':
+            steps.append([name, rng.choice(gen.BASES + [None]), rng.choice(['asis', 'dense', 'sparse'])])
+        elif name == 'marginal':
+            steps.append([name, [rng.randrange(n) for _ in range(rng.randint(1, n))]])
+        elif name == 'condition_on':
+            steps.append([name, rng.randrange(n)])
+        else:
+            steps.append([name])
+    return steps
 
 
 def rngless(case):
